@@ -173,6 +173,61 @@ objs=[(as_vector((u, 2.0*u, u.dx(1))), np.array([[0.25,0.25,0.125]])), (grad(x)[
 m=mesh("triangle"); ms=mesh("triangle"); V=space(m,"P",1); Vs=space(ms,"P",1)
 u=TrialFunction(V); v=TestFunction(Vs); x=SpatialCoordinate(m); y=SpatialCoordinate(ms); f=Coefficient(Vs)
 objs=[(x[0] + y[0]*y[1])*inner(u,v)*dx(domain=m) + f*inner(grad(u),grad(v))*dx(domain=m)]'''),
+    # less common elements, maps, geometric quantities, integral types (added to widen every property's corpus)
+    _c("exo_cr_tri", '''
+m=mesh("triangle"); V=space(m,"CR",1); u,v=TrialFunction(V),TestFunction(V); f=Coefficient(V)
+objs=[f*inner(grad(u),grad(v))*dx + jump(u)*jump(v)*dS]'''),
+    _c("exo_regge_tri", '''
+m=mesh("triangle"); V=space(m,"Regge",1); u,v=TrialFunction(V),TestFunction(V)
+objs=[inner(u,v)*dx]'''),
+    _c("exo_hhj_tri", '''
+m=mesh("triangle"); V=space(m,"HHJ",1); u,v=TrialFunction(V),TestFunction(V)
+objs=[inner(u,v)*dx]'''),
+    _c("exo_serendipity_quad", '''
+m=mesh("quadrilateral"); V=space(m,"S",2); u,v=TrialFunction(V),TestFunction(V)
+objs=[inner(grad(u),grad(v))*dx]'''),
+    _c("exo_dpc_quad", '''
+m=mesh("quadrilateral"); V=space(m,"DPC",1); u,v=TrialFunction(V),TestFunction(V)
+objs=[u*v*dx + jump(u)*jump(v)*dS]'''),
+    _c("exo_n2curl_tet", '''
+m=mesh("tetrahedron"); V=space(m,"N2curl",1); u,v=TrialFunction(V),TestFunction(V)
+objs=[inner(curl(u),curl(v))*dx + inner(u,v)*ds]'''),
+    _c("exo_bubble_enriched", '''
+m=mesh("triangle"); B=el("Bubble","triangle",3); P=el("P","triangle",1); V=FunctionSpace(m,basix.ufl.enriched_element([P,B])); u,v=TrialFunction(V),TestFunction(V)
+objs=[inner(grad(u),grad(v))*dx]'''),
+    _c("exo_nested_mixed", '''
+m=mesh("triangle"); P1=el("P","triangle",1); P2v=el("P","triangle",2,shape=(2,)); M1=basix.ufl.mixed_element([P2v,P1]); M2=basix.ufl.mixed_element([M1,P1])
+W=FunctionSpace(m,M2); w=Coefficient(W); t=TestFunction(W)
+objs=[inner(w,t)*dx]'''),
+    _c("exo_real_space", '''
+m=mesh("triangle"); V=space(m,"P",1); R=FunctionSpace(m,basix.ufl.real_element("triangle",())); u=TrialFunction(V); r=TestFunction(R); c=Coefficient(R)
+objs=[u*r*dx, c*u*r*dx]'''),
+    _c("exo_third_derivative", '''
+m=mesh("interval"); V=space(m,"P",4); u,v=TrialFunction(V),TestFunction(V)
+objs=[u.dx(0).dx(0).dx(0)*v.dx(0)*dx]'''),
+    _c("exo_geometry_zoo_tet", '''
+m=mesh("tetrahedron"); V=space(m,"P",1); v=TestFunction(V)
+from ufl.classes import ReferenceCellVolume, ReferenceFacetVolume, JacobianInverse, JacobianDeterminant, Jacobian, CellFacetJacobian, FacetJacobian, FacetJacobianDeterminant, ReferenceNormal, CellOrientation
+objs=[ReferenceCellVolume(m)*JacobianDeterminant(m)*v*dx + JacobianInverse(m)[0,1]*Jacobian(m)[1,0]*v*dx, ReferenceFacetVolume(m)*FacetJacobianDeterminant(m)*v*ds + CellFacetJacobian(m)[0,1]*FacetJacobian(m)[2,0]*ReferenceNormal(m)[1]*v*ds]'''),
+    _c("exo_manifold_cellnormal", '''
+m=mesh("triangle",1,3); V=space(m,"P",1); v=TestFunction(V); n=CellNormal(m)
+objs=[n[2]*v*dx]'''),
+    _c("exo_derivative_action", '''
+m=mesh("triangle"); V=space(m,"P",2); u=Coefficient(V); v=TestFunction(V); du=TrialFunction(V)
+F=(1+u*u)*inner(grad(u),grad(v))*dx - sin(u)*v*dx
+objs=[derivative(F,u,du), action(derivative(F,u,du),u), adjoint(derivative(F,u,du))]'''),
+    _c("exo_p3_geometry_tet", '''
+m=mesh("tetrahedron",3); V=space(m,"P",1); u,v=TrialFunction(V),TestFunction(V)
+objs=[inner(grad(u),grad(v))*dx + u*v*ds]'''),
+    _c("exo_interval_vertex_2d", '''
+m=mesh("interval",1,2); V=space(m,"P",2); v=TestFunction(V); f=Coefficient(V)
+objs=[f*v*dP + f*v*ds]'''),
+    _c("exo_ridge", '''
+m=mesh("tetrahedron"); V=space(m,"P",1); v=TestFunction(V); f=Coefficient(V)
+objs=[f*v*Measure("dr", domain=m)]'''),
+    _c("exo_tensor_constant_shapes", '''
+m=mesh("tetrahedron"); V=space(m,"P",1,shape=(3,)); u,v=TrialFunction(V),TestFunction(V); K=Constant(m,shape=(3,3)); b=Constant(m,shape=(3,)); T4=Constant(m,shape=(3,3,3,3))
+objs=[inner(K*grad(u)*K.T + outer(b,u), grad(v))*dx + T4[0,1,2,0]*inner(u,v)*dx]'''),
     _c("two_forms_module", '''
 m=mesh("triangle"); V=space(m,"P",1); u,v=TrialFunction(V),TestFunction(V); f=Coefficient(V)
 objs=[inner(grad(u),grad(v))*dx, f*v*dx, f*f*dx]'''),
@@ -570,6 +625,12 @@ options={"scalar_type": "complex128"}'''),
 
 
 UNSUPPORTED = [
+    _c("unsupported_cell_avg", '''
+m=mesh("triangle"); V=space(m,"P",2); v=TestFunction(V); f=Coefficient(V)
+objs=[ufl.cell_avg(f)*v*dx]'''),
+    _c("unsupported_facet_avg", '''
+m=mesh("triangle"); V=space(m,"P",2); v=TestFunction(V); f=Coefficient(V)
+objs=[ufl.facet_avg(f)*v*ds]'''),
     _c("custom_integral", '''
 m=mesh("triangle"); V=space(m,"P",1); v=TestFunction(V)
 objs=[v*Measure("dc", domain=m)]'''),
